@@ -43,7 +43,24 @@ def main():
                 y[n] = 8.0 * x[n] - 4.0
             return y
 
-    model = G()
+    class Constrained(G):
+        """prior with a hole inside its own bounding box: zero density where x > y"""
+
+        def log_prior(self, x):
+            lp = np.log(self.in_bounds(x), dtype=float) - np.log(32.0)
+            with np.errstate(divide="ignore"):
+                return lp + np.log(np.atleast_1d(x["x"] <= x["y"]).astype(float)).reshape(np.shape(lp))
+
+    class GaussPrior(G):
+        """non-uniform prior with a linear unit-cube map: the unit-cube prior density is not constant"""
+
+        def log_prior(self, x):
+            return np.log(self.in_bounds(x), dtype=float) - 0.125 * (x["x"] ** 2 + x["y"] ** 2) - 3.0
+
+        def log_prior_unit_hypercube(self, x):
+            return self.log_prior(self.from_unit_hypercube(x)) + np.log(64.0)
+
+    model = {"uniform": G, "constrained": Constrained, "gaussprior": GaussPrior}[cfg.get("model", "uniform")]()
     snaps = []
 
     def store_snap(ns, st, name):
